@@ -180,7 +180,11 @@ both trigger types (regenerated facts). -/
 theorem facts_verify_shape :
     Hub.Facts.Jobs.verifyReturnNilInLoop = 0 ∧ Hub.Facts.Jobs.verifyHandlersCallDepth = "loop"
     ∧ Hub.Facts.Jobs.runDefers = ["j.handleJobError(&pipelineErr)", "j.runner.raffle.returnTicket(ticket)"]
-    ∧ Hub.Facts.Jobs.raffleAccessorsCopy = ["getRunningJobs:copy", "runningJob:locked"] := by decide
+    ∧ Hub.Facts.Jobs.raffleAccessorsCopy = ["getRunningJobs:copy", "runningJob:locked"]
+    ∧ Hub.Facts.Jobs.borrowLockedFirst = "yes"
+    ∧ Hub.Facts.Jobs.borrowGuards = ["ok", "r.ticketsFull > 0", "r.ticketsIncr > 0"]
+    -- the bisection of the error-handling sink wrapper terminates: batches of length ≤ 1 are leaves
+    ∧ Hub.Facts.ErrHandler.leafCond = ["len(entities) <= 1"] := by decide
 
 -- non-vacuity: a reachable state with both kinds running
 example : let s := [Op.borrow "a" true, Op.borrow "b" false, Op.borrow "a" false, Op.ret "b" false].foldl step (init 1 2)
